@@ -4,6 +4,7 @@ go 1.19
 
 require (
 	github.com/elastic/go-libaudit/v2 v2.3.3
+	github.com/fsnotify/fsnotify v1.7.0
 	github.com/metal-toolbox/auditevent v0.8.0
 	github.com/metal-toolbox/audito-maldito v0.0.0
 	github.com/prometheus/client_golang v1.17.0
@@ -14,6 +15,7 @@ require (
 
 require (
 	github.com/beorn7/perks v1.0.1 // indirect
+	github.com/cenkalti/backoff/v4 v4.2.1 // indirect
 	github.com/cespare/xxhash/v2 v2.2.0 // indirect
 	github.com/golang/protobuf v1.5.3 // indirect
 	github.com/google/uuid v1.3.0 // indirect
